@@ -116,7 +116,7 @@ class pLSCF(BaseAlgorithm[pLSCFRunParams, pLSCFResult, typing.Iterable[float]]):
             Fns,
             Xis,
             Phis,
-            ordmin,
+            max(ordmin - 1, 0),
             ordmax - 1,
             1,
             sc["err_fn"],
@@ -403,7 +403,7 @@ class pLSCF_MS(pLSCF[pLSCFRunParams, pLSCFResult, typing.Iterable[dict]]):
             Fns,
             Xis,
             Phis,
-            ordmin,
+            max(ordmin - 1, 0),
             ordmax - 1,
             1,
             sc["err_fn"],
